@@ -559,4 +559,92 @@ theorem loadFilter_bounds (b : Bytes) (f : Filter) (h : loadFilter b = some f) :
                 · cases h
                 · cases h; exact ⟨hb, hh⟩
 
+/-! ### encoder / decoder of `filterload` -/
+
+theorem leBytes_length (k n : Nat) : (leBytes k n).length = k := by
+  induction k generalizing n with
+  | zero => rfl
+  | succ k ih => simp [leBytes, ih]
+
+theorem readLE_leBytes (k : Nat) : ∀ (n : Nat) (r : Bytes), n < 256 ^ k → readLE k (leBytes k n ++ r) = some (n, r) := by
+  induction k with
+  | zero => intro n r h; simp at h; subst h; rfl
+  | succ k ih =>
+    intro n r h
+    have h' : n / 256 < 256 ^ k := by
+      rw [Nat.pow_succ] at h
+      exact Nat.div_lt_of_lt_mul (by rw [Nat.mul_comm]; exact h)
+    simp only [leBytes, List.cons_append, readLE, ih (n / 256) r h', UInt8.toNat_ofNat']
+    congr 2
+    omega
+
+theorem readVarUint_write (n : Nat) (r : Bytes) (h : n < 2 ^ 64) :
+    readVarUint (writeVarUint n ++ r) = .ok (n, r) := by
+  unfold writeVarUint
+  split
+  · rename_i h1
+    have hb : (UInt8.ofNat n).toNat = n := by rw [UInt8.toNat_ofNat']; omega
+    have e1 : UInt8.ofNat n ≠ 0xff := by intro he; have := congrArg UInt8.toNat he; rw [hb] at this; simp at this; omega
+    have e2 : UInt8.ofNat n ≠ 0xfe := by intro he; have := congrArg UInt8.toNat he; rw [hb] at this; simp at this; omega
+    have e3 : UInt8.ofNat n ≠ 0xfd := by intro he; have := congrArg UInt8.toNat he; rw [hb] at this; simp at this; omega
+    simp only [List.cons_append, List.nil_append, readVarUint, if_neg e1, if_neg e2, if_neg e3, hb]
+  · rename_i h1
+    split
+    · rename_i h2
+      have : readLE 2 (leBytes 2 n ++ r) = some (n, r) := readLE_leBytes 2 n r (by omega)
+      simp only [List.cons_append, readVarUint, readVarWide, this]
+      simp
+      omega
+    · rename_i h2
+      split
+      · rename_i h3
+        have : readLE 4 (leBytes 4 n ++ r) = some (n, r) := readLE_leBytes 4 n r (by omega)
+        simp only [List.cons_append, readVarUint, readVarWide, this]
+        simp
+        omega
+      · rename_i h3
+        have : readLE 8 (leBytes 8 n ++ r) = some (n, r) := readLE_leBytes 8 n r (by omega)
+        simp only [List.cons_append, readVarUint, readVarWide, this]
+        simp
+        omega
+
+theorem loadFilter_encode (f : Filter) (flags : UInt8) (hb : f.bits.length ≤ maxFilterLoadFilterSize)
+    (hh : f.hashFuncs.toNat ≤ maxFilterLoadHashFuncs) (ht : f.txTypes.length < 2 ^ 64) :
+    loadFilter (encodeFilterLoad f flags) = some f := by
+  have hb64 : f.bits.length < 2 ^ 64 := by simp only [maxFilterLoadFilterSize] at hb; omega
+  have h32a : f.hashFuncs.toNat < 256 ^ 4 := f.hashFuncs.toNat_lt
+  have h32b : f.tweak.toNat < 256 ^ 4 := f.tweak.toNat_lt
+  unfold encodeFilterLoad loadFilter
+  simp only [List.append_assoc]
+  rw [readVarUint_write _ _ hb64]
+  simp only []
+  rw [if_neg (by omega), if_neg (by simp)]
+  have e1 : (f.bits ++ (leBytes 4 f.hashFuncs.toNat ++ (leBytes 4 f.tweak.toNat ++ ([flags] ++
+      (writeVarUint f.txTypes.length ++ f.txTypes))))).take f.bits.length = f.bits := by simp
+  have e2 : (f.bits ++ (leBytes 4 f.hashFuncs.toNat ++ (leBytes 4 f.tweak.toNat ++ ([flags] ++
+      (writeVarUint f.txTypes.length ++ f.txTypes))))).drop f.bits.length =
+      leBytes 4 f.hashFuncs.toNat ++ (leBytes 4 f.tweak.toNat ++ ([flags] ++
+      (writeVarUint f.txTypes.length ++ f.txTypes))) := by simp
+  rw [e1, e2, readLE_leBytes 4 _ _ h32a]
+  simp only []
+  rw [readLE_leBytes 4 _ _ h32b]
+  simp only []
+  rw [if_neg (by omega)]
+  simp only [List.singleton_append]
+  have e3 : readVarUint (writeVarUint f.txTypes.length ++ f.txTypes) = .ok (f.txTypes.length, f.txTypes) :=
+    readVarUint_write _ _ ht
+  rw [e3]
+  simp only [List.take_length, UInt32.ofNat_toNat]
+
+theorem writeVarUint_length (n : Nat) :
+    (writeVarUint n).length = if n < 0xfd then 1 else if n ≤ 0xffff then 3 else if n ≤ 0xffffffff then 5 else 9 := by
+  unfold writeVarUint
+  repeat' split
+  all_goals simp [leBytes_length]
+
+theorem encodeFilterLoad_length (f : Filter) (flags : UInt8) :
+    (encodeFilterLoad f flags).length =
+      (writeVarUint f.bits.length).length + f.bits.length + 9 + (writeVarUint f.txTypes.length).length + f.txTypes.length := by
+  simp only [encodeFilterLoad, List.length_append, leBytes_length, List.length_singleton]
+
 end ElaVerif.Bloom
